@@ -185,7 +185,7 @@ func classifyChart(real *ledger.ChartOfAccounts, address string) (accepted bool,
 
 // ---------------------------------------------------------------- C30
 
-const ruleC30 = "random valid charts (depth <= 4; fixed and variable segments, patterns, explicit and implicit .self, .metadata with and without defaults), transaction templates and query templates are written as JSON, decoded by the real code, then (a) marshalled and decoded again, (b) inserted with the real InsertSchema and read back with GetSchema and ListSchemas over the stand-in; 12 generated addresses plus every account path of the chart are classified (accepted / rejected, default metadata) by the reference matcher on the generated tree, by the decoded chart and by each round-tripped chart, and templates / query templates are compared; non-trivial = chart with .self on a non-leaf, a variable segment with a pattern and default metadata; distinct = by chart JSON"
+const ruleC30 = "random valid charts (depth <= 4; fixed and variable segments, patterns, explicit and implicit .self, .metadata with and without defaults), transaction templates and query templates are written as JSON, decoded by the real code, then (a) marshalled and decoded again, (b) inserted with the real InsertSchema and read back with GetSchema and ListSchemas over the stand-in, (c) posted as generated to POST /v2/{ledger}/schemas/{version} and read back with GET; 12 generated addresses plus every account path of the chart are classified (accepted / rejected, default metadata) by the reference matcher on the generated tree, by the decoded chart and by each round-tripped chart, and templates / query templates are compared; non-trivial = chart with .self on a non-leaf, a variable segment with a pattern and default metadata; distinct = by chart JSON"
 
 func equalStringMaps(a, b map[string]string) bool {
 	if len(a) != len(b) {
@@ -294,6 +294,22 @@ func TestC30(t *testing.T) {
 		}
 		variants := map[string]ledger.SchemaData{"decoded": data, "marshal+unmarshal": data2, "InsertSchema+GetSchema": stored.SchemaData}
 		names := []string{"decoded", "marshal+unmarshal", "InsertSchema+GetSchema"}
+		// (c) the same document as a client sends it: POST /schemas/{version} with the generated JSON, GET it back
+		if post := w.httpCall("POST", "/v2/l1/schemas/v2", []byte(raw)); post.Code/100 != 2 {
+			rt.Fatalf("VIOLATION[C30]: a valid schema is refused by POST /v2/l1/schemas/v2: HTTP %d %s\n%s", post.Code, truncate(post.Body.String(), 300), raw)
+		}
+		get := w.httpCall("GET", "/v2/l1/schemas/v2", nil)
+		var viaAPI struct {
+			Data ledger.Schema `json:"data"`
+		}
+		if err := json.Unmarshal(get.Body.Bytes(), &viaAPI); get.Code != 200 || err != nil {
+			rt.Fatalf("VIOLATION[C30]: GET /v2/l1/schemas/v2 after the POST: HTTP %d (%v) %s", get.Code, err, truncate(get.Body.String(), 300))
+		}
+		if viaAPI.Data.Version != "v2" {
+			rt.Fatalf("VIOLATION[C30]: GET /v2/l1/schemas/v2 returns version %q", viaAPI.Data.Version)
+		}
+		variants["POST+GET /schemas"] = viaAPI.Data.SchemaData
+		names = append(names, "POST+GET /schemas")
 		var addrs []string
 		accountPaths(root, nil, &addrs)
 		for i := 0; i < 12; i++ {
@@ -446,6 +462,11 @@ func TestC29(t *testing.T) {
 		}
 		hasTemplates := len(data.Transactions) > 0
 		w := NewWorld(rt, st, env.Options{Enforcement: mode}, "C29")
+		if rapid.IntRange(0, 2).Draw(rt, "throughTheAPI") == 0 {
+			// the writes travel through the HTTP routes (schemaVersion parameter, template / script bodies, error codes)
+			w.ViaHTTP = true
+			st.Class("writes-through-the-api")
+		}
 		defer w.Close()
 		l := w.AddLedger("l1", "b1", features.DefaultFeatures)
 		hist := []string{fmt.Sprintf("mode=%s schema=%s", mode, raw)}
@@ -557,7 +578,7 @@ func TestC29(t *testing.T) {
 				var run ledgercontroller.RunScript
 				if x.Template != "" {
 					run = ledgercontroller.RunScript{Script: ledgercontroller.Script{Template: x.Template, Vars: map[string]string{"dst": x.Dst[0]}}}
-					if rapid.IntRange(0, 3).Draw(rt, "ownScriptBesidesTheTemplate") == 0 {
+					if !w.ViaHTTP && rapid.IntRange(0, 3).Draw(rt, "ownScriptBesidesTheTemplate") == 0 { // the single-transaction route refuses the combination up front
 						// the request names the template and carries a script of its own (a bulk element or a direct caller can):
 						// naming a template means running the template
 						x.OwnScript = true
